@@ -749,6 +749,13 @@ pub mod verif_hooks {
         min_input_len: usize,
         min_output_len: usize,
     ) -> crate::ResampleResult<()> {
-        crate::validate_buffers(wave_in, wave_out, mask, channels, min_input_len, min_output_len)
+        crate::validate_buffers(
+            wave_in,
+            wave_out,
+            mask,
+            channels,
+            min_input_len,
+            min_output_len,
+        )
     }
 }
